@@ -2,7 +2,10 @@
    servers use, in both representations; match lists are the sorted covering subsets; nothing
    depends on the order of writes. *)
 From Coq Require Import Sorting.Permutation Sorting.Sorted.
-From Verif Require Import Base.Prelude Intention.Model Intention.OrderProofs.
+From Verif Require Import Base.Prelude.
+From Verif Require Import Intention.Model.
+From Verif Require Import Intention.Spec.
+From Verif Require Import Intention.OrderProofs.
 Local Open Scope string_scope.
 Local Open Scope list_scope.
 
@@ -38,26 +41,16 @@ Proof.
 Qed.
 
 (* names whose case-folded forms collide are the same name *)
-Definition coherent (names : list string) : Prop :=
-  forall a b, In a names -> In b names -> lower a = lower b -> a = b.
 
 Lemma coherent_incl l l' : incl l l' -> coherent l' -> coherent l.
 Proof. intros Hi Hc a b Ha Hb. apply Hc; apply Hi; assumption. Qed.
 
 (* ---------------------------------------------------------------- precedence = specificity *)
 
-Definition dspec (i : ixn) : N := count_exact (i_dns i) (i_dname i).
-Definition sspec (i : ixn) : N := count_exact (i_sns i) (i_sname i).
 
 (* i is strictly more specific than j: destination first, then source *)
-Definition more_specific (i j : ixn) : Prop :=
-  (dspec j < dspec i)%N \/ (dspec j = dspec i /\ (sspec j < sspec i)%N).
 
 (* what Intention.Validate / the config-entry validation guarantee of stored intentions *)
-Definition wf (i : ixn) : Prop :=
-  (is_wild (i_sns i) = true -> is_wild (i_sname i) = true) /\
-  (is_wild (i_dns i) = true -> is_wild (i_dname i) = true) /\
-  i_prec i = prec_of (i_sns i) (i_sname i) (i_dns i) (i_dname i).
 
 Lemma count_exact_cases ns n : count_exact ns n = 0%N \/ count_exact ns n = 1%N \/ count_exact ns n = 2%N.
 Proof. unfold count_exact. destruct (is_wild ns), (is_wild n); auto. Qed.
@@ -111,17 +104,7 @@ Qed.
 (* ---------------------------------------------------------------- the specification *)
 
 (* intention i covers the connection (peer, sns/s) -> (dns/d): authz.go's predicate on both sides *)
-Definition covers (peer sns s dns d : string) (i : ixn) : bool :=
-  (authz_match MSrc s sns peer i && authz_match MDst d dns "" i)%bool.
 
-Definition summary_of (o : option ixn) (default_allow allow_perms : bool) : summary :=
-  match o with
-  | None => Summary default_allow false false
-  | Some i =>
-      let hp := negb (N.eqb (i_nperm i) 0) in
-      Summary (if hp then allow_perms else action_eqb (i_act i) Allow) hp
-              (negb (is_wild (i_sname i)) && negb (is_wild (i_dname i)))%bool
-  end.
 
 Lemma decide_eq l mt t ns p da ap :
   decide l mt t ns p da ap = summary_of (find (authz_match mt t ns p) l) da ap.
@@ -132,16 +115,9 @@ Section View.
   Hypothesis all_wf : forall i, In i all -> wf i.
   Hypothesis all_key : forall i j, In i all -> In j all -> key5 i = key5 j -> i = j.
 
-  (* i is THE most specific stored intention covering the connection *)
-  Definition best (peer sns s dns d : string) (i : ixn) : Prop :=
-    In i all /\ covers peer sns s dns d i = true /\
-    forall j, In j all -> covers peer sns s dns d j = true -> j <> i -> more_specific i j.
+  Local Notation best := (Spec.best all).
+  Local Notation decided := (Spec.decided all).
 
-  Definition decided (peer sns s dns d : string) (o : option ixn) : Prop :=
-    match o with
-    | None => forall j, In j all -> covers peer sns s dns d j = false
-    | Some i => best peer sns s dns d i
-    end.
 
   Lemma more_specific_asym i j : more_specific i j -> more_specific j i -> False.
   Proof. unfold more_specific. lia. Qed.
@@ -325,16 +301,10 @@ Qed.
 
 (* ---------------------------------------------------------------- the legacy table *)
 
-Definition inames (i : ixn) : list string := [i_sns i; i_sname i; i_dns i; i_dname i].
-Definition tnames (t : list ixn) : list string := flat_map inames t.
 
 (* what the unique lower-cased "source_destination" index maintains *)
-Definition key4_unique (t : list ixn) : Prop :=
-  forall i j, In i t -> In j t -> key4_eqb i j = true -> i = j.
 
 (* rows written through the endpoints: validated, local sources (Intention.Apply rejects SourcePeer) *)
-Definition legacy_ok (t : list ixn) : Prop :=
-  (forall i, In i t -> wf i /\ i_peer i = "") /\ key4_unique t.
 
 Lemma key4_eqb_refl_of_key5 i j : key5 i = key5 j -> key4_eqb i j = true.
 Proof.
@@ -344,11 +314,7 @@ Qed.
 Lemma legacy_all_key t : key4_unique t -> forall i j, In i t -> In j t -> key5 i = key5 j -> i = j.
 Proof. intros H i j Hi Hj E. apply H; try assumption. apply key4_eqb_refl_of_key5; exact E. Qed.
 
-Definition side (mt : mtype) (i : ixn) : string * string :=
-  match mt with MSrc => (i_sns i, i_sname i) | MDst => (i_dns i, i_dname i) end.
 
-Definition side_pred (mt : mtype) (ns n : string) (i : ixn) : bool :=
-  (wild_or_eq (fst (side mt i)) ns && wild_or_eq (snd (side mt i)) n)%bool.
 
 Lemma idx_eq_side mt p i :
   idx_eq mt p i = true <-> lower (fst (side mt i)) = lower (fst p) /\ lower (snd (side mt i)) = lower (snd p).
@@ -501,8 +467,6 @@ Proof.
 Qed.
 
 (* creating intentions in any order *)
-Definition legacy_apply (t : list ixn) (ws : list ixn) : list ixn :=
-  fold_left (fun t w => snd (legacy_set t w)) ws t.
 
 Lemma replace_by_id_fresh i t :
   (forall j, In j t -> i_id j <> i_id i) -> replace_by_id i t = t ++ [i].
@@ -514,9 +478,6 @@ Proof.
 Qed.
 
 (* fresh writes: new IDs, new (case-folded) name tuples *)
-Definition fresh_writes (t ws : list ixn) : Prop :=
-  NoDup (map i_id (t ++ ws)) /\ (forall w, In w ws -> i_id w <> "") /\
-  (forall i j, In i (t ++ map set_prec ws) -> In j (t ++ map set_prec ws) -> key4_eqb i j = true -> i = j).
 
 Lemma set_prec_id w : i_id (set_prec w) = i_id w.
 Proof. reflexivity. Qed.
@@ -581,27 +542,12 @@ Qed.
 
 (* ---------------------------------------------------------------- service-intentions config entries *)
 
-Definition skey (s : src) : string * string := (s_peer s, s_name s).
-Definition lname (e : entry) : string := lower (e_name e).
-Definition enames (st : list entry) : list string := map e_name st.
 
-Definition src_ok (en : string) (s : src) : Prop := s_prec s = prec_of dflt (s_name s) dflt en.
 
 (* an entry as Normalize + Validate leave it *)
-Definition entry_ok (e : entry) : Prop :=
-  validate e = None /\ forall s, In s (e_srcs e) -> src_ok (e_name e) s.
 
 (* the config-entry table: one entry per lower-cased name *)
-Definition store_ok (st : list entry) : Prop :=
-  NoDup (map lname st) /\ forall e, In e st -> entry_ok e.
 
-Definition src_valid (dw : bool) (s : src) : bool :=
-  (negb (String.eqb (s_name s) "")
-   && negb (negb (is_wild (s_name s)) && has_star (s_name s))
-   && negb (has_star (s_peer s))
-   && negb (N.eqb (s_nperm s) 0 && negb (action_eqb (s_act s) Allow || action_eqb (s_act s) Deny))
-   && negb (negb (N.eqb (s_nperm s) 0) && negb (action_eqb (s_act s) NoAct))
-   && negb (dw && negb (N.eqb (s_nperm s) 0)))%bool.
 
 Lemma src_key_eqb_iff a b : src_key_eqb a b = true <-> skey a = skey b.
 Proof.
@@ -641,8 +587,6 @@ Proof.
         -- apply (Hs s (or_intror Hs')). exact Hin.
 Qed.
 
-Definition ename_valid (n : string) : bool :=
-  (negb (String.eqb n "") && negb (negb (is_wild n) && has_star n))%bool.
 
 Lemma validate_none e :
   validate e = None <->
@@ -939,11 +883,6 @@ Qed.
 
 (* what readSourceIntentionsFromConfigEntriesTxn really selects: the source NAME is covered and the
    destination's entry has a LOCAL source of that name (the peer of the selected source is not looked at) *)
-Definition src_sel (all : list ixn) (s : string) (j : ixn) : bool :=
-  existsb (fun m => String.eqb (i_sname j) m &&
-                    existsb (fun j' => String.eqb (i_peer j') "" && String.eqb (i_sname j') m
-                                       && String.eqb (i_dname j') (i_dname j)) all)%bool
-          (match_names s).
 
 Lemma has_local_src_call st e m x :
   store_ok st -> In e st ->
@@ -990,8 +929,522 @@ Proof.
         intros x. rewrite andb_false_r. reflexivity.
   - unfold to_ixns. rewrite filter_map_comm. apply Permutation_map.
     erewrite filter_ext; [reflexivity|]. intros x. unfold src_sel.
-    cbn [to_ixn i_sname]. f_equal.
+    cbn [to_ixn i_sname].
     (* the inner test over all stored intentions is has_local_src of this entry *)
-    clear - Hst He. induction (match_names s) as [|m ms IH]; cbn [existsb]; [reflexivity|].
+    generalize (match_names s) as ms. intros ms. induction ms as [|m ms IH]; cbn [existsb]; [reflexivity|].
     rewrite IH. f_equal. f_equal. symmetry. apply (has_local_src_call st e m x Hst He).
+Qed.
+
+(* ---------------------------------------------------------------- observations depend on the stored SET only *)
+
+Lemma existsb_perm {A} (f : A -> bool) l l' : Permutation l l' -> existsb f l = existsb f l'.
+Proof.
+  induction 1 as [|x l l' Hp IH|x y l|l l' l'' Hp1 IH1 Hp2 IH2]; cbn [existsb]; try congruence.
+  destruct (f x), (f y); reflexivity.
+Qed.
+
+Lemma forallb_perm {A} (f : A -> bool) l l' : Permutation l l' -> forallb f l = forallb f l'.
+Proof.
+  induction 1 as [|x l l' Hp IH|x y l|l l' l'' Hp1 IH1 Hp2 IH2]; cbn [forallb]; try congruence.
+  destruct (f x), (f y); reflexivity.
+Qed.
+
+Lemma sorted_perm_eq l1 l2 :
+  isorted l1 -> isorted l2 -> Permutation l1 l2 ->
+  (forall x y, In x l1 -> In y l1 -> key5 x = key5 y -> x = y) -> l1 = l2.
+Proof.
+  intros S1 S2 Hp Hk.
+  rewrite <- (isort_sorted_id ileb l1 S1), <- (isort_sorted_id ileb l2 S2).
+  apply sort_ixns_perm_eq; assumption.
+Qed.
+
+Lemma src_sel_perm all all' s j : Permutation all all' -> src_sel all s j = src_sel all' s j.
+Proof.
+  intros Hp. unfold src_sel. induction (match_names s) as [|m ms IH]; cbn [existsb]; [reflexivity|].
+  rewrite IH. f_equal. f_equal. apply existsb_perm. exact Hp.
+Qed.
+
+Theorem config_obs_perm st1 st2 :
+  store_ok st1 -> store_ok st2 -> Permutation (call st1) (call st2) ->
+  config_list st1 = config_list st2 /\
+  (forall s, cmatch_src st1 s = cmatch_src st2 s) /\
+  (forall d, coherent (enames st1 ++ [d]) -> coherent (enames st2 ++ [d]) ->
+             cmatch_dst st1 d = cmatch_dst st2 d).
+Proof.
+  intros H1 H2 Hp. pose proof (config_all_key st1 H1) as K1. split; [|split].
+  - apply sort_ixns_perm_eq; assumption.
+  - intros s. apply sorted_perm_eq; try apply sort_ixns_sorted.
+    + rewrite (cmatch_src_perm st1 s H1), (cmatch_src_perm st2 s H2).
+      erewrite filter_ext; [apply perm_filter; exact Hp|].
+      intros j. apply src_sel_perm. exact Hp.
+    + intros x y Hx Hy. apply K1.
+      * apply (Permutation_in _ (cmatch_src_perm st1 s H1)) in Hx. apply filter_In in Hx. tauto.
+      * apply (Permutation_in _ (cmatch_src_perm st1 s H1)) in Hy. apply filter_In in Hy. tauto.
+  - intros d C1 C2. apply sorted_perm_eq; try apply sort_ixns_sorted.
+    + rewrite (cmatch_dst_perm st1 d H1 C1), (cmatch_dst_perm st2 d H2 C2). apply perm_filter. exact Hp.
+    + intros x y Hx Hy. apply K1.
+      * apply (cmatch_dst_in st1 d x H1 C1) in Hx. tauto.
+      * apply (cmatch_dst_in st1 d y H1 C1) in Hy. tauto.
+Qed.
+
+(* ---------------------------------------------------------------- writes: Normalize, Validate, put *)
+
+Lemma isort_perm' {A} (leb : A -> A -> bool) l : Permutation (isort leb l) l.
+Proof. apply isort_perm. Qed.
+
+Lemma normalize_srcs_perm e :
+  Permutation (e_srcs (normalize e)) (map (src_set_prec (e_name e)) (e_srcs e)).
+Proof. unfold normalize. cbn [e_srcs]. apply isort_perm'. Qed.
+
+Lemma normalize_name e : e_name (normalize e) = e_name e.
+Proof. reflexivity. Qed.
+
+Lemma src_valid_set_prec dw en s : src_valid dw (src_set_prec en s) = src_valid dw s.
+Proof. reflexivity. Qed.
+
+Lemma skey_set_prec en s : skey (src_set_prec en s) = skey s.
+Proof. reflexivity. Qed.
+
+Lemma src_set_prec_id en s : src_ok en s -> src_set_prec en s = s.
+Proof. unfold src_ok, src_set_prec. destruct s; cbn. intros ->. reflexivity. Qed.
+
+Lemma normalize_src_ok e s : In s (e_srcs (normalize e)) -> src_ok (e_name e) s.
+Proof.
+  intros Hs. apply (Permutation_in _ (normalize_srcs_perm e)) in Hs.
+  apply in_map_iff in Hs as (x & <- & _). reflexivity.
+Qed.
+
+Lemma validate_normalize e :
+  validate (normalize e) = None <->
+  ename_valid (e_name e) = true /\ e_srcs e <> [] /\
+  forallb (src_valid (is_wild (e_name e))) (e_srcs e) = true /\ NoDup (map skey (e_srcs e)).
+Proof.
+  rewrite validate_none, normalize_name.
+  pose proof (normalize_srcs_perm e) as Hp.
+  rewrite (forallb_perm _ _ _ Hp).
+  assert (forallb (src_valid (is_wild (e_name e))) (map (src_set_prec (e_name e)) (e_srcs e))
+          = forallb (src_valid (is_wild (e_name e))) (e_srcs e)) as ->.
+  { clear Hp. generalize (e_srcs e) as l. intros l.
+    induction l as [|a l IH]; cbn [map forallb]; [reflexivity|]. rewrite IH. reflexivity. }
+  assert (Permutation (map skey (e_srcs (normalize e))) (map skey (e_srcs e))) as Hk.
+  { rewrite Hp. rewrite map_map. erewrite map_ext; [reflexivity|]. intros a. apply skey_set_prec. }
+  split; intros (A & B & C & D); repeat split; try assumption.
+  - intros E. rewrite E in Hp. cbn [map] in Hp. apply Permutation_sym, Permutation_nil in Hp. exact (B Hp).
+  - eapply Permutation_NoDup; [exact Hk|exact D].
+  - intros E. rewrite E in Hp. apply Permutation_nil in Hp.
+    destruct (e_srcs e); [apply B; reflexivity|discriminate].
+  - eapply Permutation_NoDup; [symmetry; exact Hk|exact D].
+Qed.
+
+Lemma entry_ok_normalize e : validate (normalize e) = None -> entry_ok (normalize e).
+Proof. intros H. split; [exact H|]. intros s Hs. rewrite normalize_name. apply normalize_src_ok. exact Hs. Qed.
+
+Lemma ensure_cases st e :
+  (validate (normalize e) = None /\ ensure st e = (WOk, put (normalize e) st)) \/
+  (exists c, validate (normalize e) = Some c /\ ensure st e = (WInvalid c, st)).
+Proof. unfold ensure. destruct (validate (normalize e)) as [c|]; eauto. Qed.
+
+Lemma put_in e st x : In x (put e st) -> x = e \/ In x st.
+Proof.
+  induction st as [|y r IH]; cbn [put]; [intros [<-|[]]; auto|].
+  destruct (name_eqb (e_name y) (e_name e)); intros [<-|H]; auto.
+  - right; right; exact H.
+  - right; left; reflexivity.
+  - destruct (IH H); auto. right; right; assumption.
+Qed.
+
+Lemma put_lnames e st x : In x (map lname (put e st)) -> x = lname e \/ In x (map lname st).
+Proof.
+  intros H. apply in_map_iff in H as (y & <- & Hy). apply put_in in Hy as [->|Hy]; [left; reflexivity|].
+  right. apply in_map. exact Hy.
+Qed.
+
+Lemma put_nodup e st : NoDup (map lname st) -> NoDup (map lname (put e st)).
+Proof.
+  induction st as [|y r IH]; cbn [put map]; intros Hn; [repeat constructor; intros []|].
+  inversion Hn as [|? ? Hnotin Hn']; subst.
+  unfold name_eqb at 1. destruct (String.eqb_spec (lower (e_name y)) (lower (e_name e))) as [E|E]; cbn [map].
+  - constructor; [|exact Hn']. unfold lname at 1. rewrite <- E. exact Hnotin.
+  - constructor; [|apply IH; exact Hn']. intros Hin. apply put_lnames in Hin as [Hin|Hin]; [|contradiction].
+    apply E. exact Hin.
+Qed.
+
+Lemma store_ok_put e st : store_ok st -> entry_ok e -> store_ok (put e st).
+Proof.
+  intros [Hn Hok] He. split; [apply put_nodup; exact Hn|].
+  intros x Hx. apply put_in in Hx as [->|Hx]; [exact He|apply Hok; exact Hx].
+Qed.
+
+Lemma enames_put e st : incl (enames (put e st)) (enames st ++ [e_name e]).
+Proof.
+  intros n Hn. unfold enames in Hn. apply in_map_iff in Hn as (x & <- & Hx). apply in_or_app.
+  apply put_in in Hx as [->|Hx]; [right; left; reflexivity|left; apply in_map; exact Hx].
+Qed.
+
+Lemma filter_all_in {A} (P : A -> bool) l : (forall x, In x l -> P x = true) -> filter P l = l.
+Proof.
+  induction l as [|a l IH]; intros H; cbn [filter]; [reflexivity|].
+  rewrite (H a (or_introl eq_refl)), IH; [reflexivity|]. intros x Hx. apply H; right; exact Hx.
+Qed.
+
+Lemma filter_none_in {A} (P : A -> bool) l : (forall x, In x l -> P x = false) -> filter P l = [].
+Proof.
+  induction l as [|a l IH]; intros H; cbn [filter]; [reflexivity|].
+  rewrite (H a (or_introl eq_refl)), IH; [reflexivity|]. intros x Hx. apply H; right; exact Hx.
+Qed.
+
+Lemma to_ixns_dname e j : In j (to_ixns e) -> i_dname j = e_name e.
+Proof. unfold to_ixns. intros H. apply in_map_iff in H as (s & <- & _). reflexivity. Qed.
+
+(* replacing / adding an entry: every intention of the entries with that (case-folded) name goes,
+   the new entry's intentions come *)
+Lemma put_call e st :
+  NoDup (map lname st) ->
+  Permutation (call (put e st))
+              (filter (fun j => negb (name_eqb (i_dname j) (e_name e))) (call st) ++ to_ixns e).
+Proof.
+  induction st as [|y r IH]; cbn [put map]; intros Hn.
+  - cbn. rewrite app_nil_r. reflexivity.
+  - inversion Hn as [|? ? Hnotin Hn']; subst.
+    unfold call. cbn [flat_map]. fold (call r). rewrite filter_app.
+    destruct (name_eqb (e_name y) (e_name e)) eqn:E.
+    + cbn [flat_map]. fold (call r).
+      rewrite (filter_none_in _ (to_ixns y)).
+      * rewrite (filter_all_in _ (call r)); [cbn [app]; apply Permutation_app_comm|].
+        intros j Hj. apply in_call in Hj as (x & s & Hx & _ & ->). cbn [to_ixn i_dname].
+        apply negb_true_iff. unfold name_eqb in *. apply String.eqb_eq in E. apply String.eqb_neq. intros Ex.
+        apply Hnotin. unfold lname at 1. rewrite E, <- Ex. apply (in_map lname). exact Hx.
+      * intros j Hj. rewrite (to_ixns_dname _ _ Hj), E. reflexivity.
+    + cbn [flat_map]. fold (call (put e r)). rewrite (IH Hn').
+      rewrite (filter_all_in _ (to_ixns y)).
+      * rewrite app_assoc. reflexivity.
+      * intros j Hj. rewrite (to_ixns_dname _ _ Hj), E. reflexivity.
+Qed.
+
+(* ---------------------------------------------------------------- Store.IntentionMutation(upsert) *)
+
+(* no entry holds two sources with the same service name (e.g. a local and a peered "web") *)
+
+
+(* the intention an accepted upsert stores *)
+
+(* what Validate demands of the write itself *)
+
+Lemma upsert_src_perm n v l :
+  NoDup (map s_name l) ->
+  Permutation (upsert_src n v l) (v :: filter (fun x => negb (String.eqb (s_name x) n)) l).
+Proof.
+  induction l as [|a l IH]; cbn [upsert_src map filter]; intros Hn; [reflexivity|].
+  inversion Hn as [|? ? Hnotin Hn']; subst.
+  destruct (String.eqb_spec (s_name a) n) as [E|E]; cbn [negb].
+  - constructor. rewrite filter_all_in; [reflexivity|].
+    intros x Hx. apply negb_true_iff, String.eqb_neq. intros Ex. apply Hnotin. rewrite E, <- Ex.
+    apply in_map. exact Hx.
+  - rewrite (IH Hn'). apply perm_swap.
+Qed.
+
+Lemma nodup_map_filter {A B} (f : A -> B) (P : A -> bool) l : NoDup (map f l) -> NoDup (map f (filter P l)).
+Proof.
+  induction l as [|a l IH]; cbn [map filter]; intros Hn; [constructor|].
+  inversion Hn as [|? ? Hnotin Hn']; subst. destruct (P a); cbn [map]; [|apply IH; exact Hn'].
+  constructor; [|apply IH; exact Hn']. intros Hin. apply Hnotin.
+  apply in_map_iff in Hin as (x & Ex & Hx). apply filter_In in Hx as [Hx _]. rewrite <- Ex. apply in_map. exact Hx.
+Qed.
+
+Lemma flat_map_single {A B} (f : A -> list B) l p :
+  NoDup l -> In p l -> (forall x, In x l -> x <> p -> f x = []) -> flat_map f l = f p.
+Proof.
+  induction l as [|a l IH]; intros Hn Hp Hf; [destruct Hp|].
+  inversion Hn as [|? ? Hnotin Hn']; subst. cbn [flat_map].
+  destruct Hp as [->|Hp].
+  - rewrite (flat_map_ext_in f (fun _ => [])), flat_map_nil, app_nil_r; [reflexivity|].
+    intros x Hx. apply Hf; [right; exact Hx|]. intros ->. contradiction.
+  - rewrite (Hf a (or_introl eq_refl)); [|intros ->; contradiction]. cbn [app]. apply IH; try assumption.
+    intros x Hx. apply Hf. right; exact Hx.
+Qed.
+
+Lemma nodup_of_map {A B} (f : A -> B) l : NoDup (map f l) -> NoDup l.
+Proof.
+  induction l as [|a l IH]; cbn [map]; intros Hn; [constructor|].
+  inversion Hn as [|? ? Hnotin Hn']; subst. constructor; [|apply IH; exact Hn'].
+  intros Hin. apply Hnotin. apply in_map. exact Hin.
+Qed.
+
+Lemma to_ixn_name e e' s : e_name e = e_name e' -> to_ixn e s = to_ixn e' s.
+Proof. unfold to_ixn. intros ->. reflexivity. Qed.
+
+Lemma forallb_filter {A} (f P : A -> bool) l : forallb f l = true -> forallb f (filter P l) = true.
+Proof.
+  induction l as [|a l IH]; cbn [forallb filter]; [reflexivity|]. intros H. apply andb_true_iff in H as [Ha Hl].
+  destruct (P a); cbn [forallb]; [rewrite Ha|]; apply IH; exact Hl.
+Qed.
+
+Lemma over_split dn v j :
+  negb (over dn v j) =
+  (negb (name_eqb (i_dname j) dn) || (name_eqb (i_dname j) dn && negb (String.eqb (i_sname j) (s_name v))))%bool.
+Proof. unfold over. destruct (name_eqb (i_dname j) dn), (String.eqb (i_sname j) (s_name v)); reflexivity. Qed.
+
+Lemma upsert_step st dn v :
+  store_ok st -> shadow_free st -> coherent (enames st ++ [dn]) -> s_peer v = "" ->
+  let st' := snd (upsert st dn v) in
+  (wvalid dn v = false -> st' = st) /\
+  (wvalid dn v = true ->
+     store_ok st' /\ shadow_free st' /\ incl (enames st') (enames st ++ [dn]) /\
+     Permutation (call st') (filter (fun j => negb (over dn v j)) (call st) ++ [wixn dn v])).
+Proof.
+  intros Hst Hsf C Hpeer. pose proof Hst as [Hnd Hok]. unfold upsert.
+  destruct (lookup st dn) as [p|] eqn:L.
+  - (* the destination already has an entry *)
+    apply lookup_some in L as [Hp El].
+    assert (e_name p = dn) as En.
+    { apply C; [apply in_or_app; left; apply in_map; exact Hp|apply in_or_app; right; left; reflexivity|exact El]. }
+    destruct (Hok p Hp) as [Vp Sp]. apply validate_none in Vp as (Vn & Vne & Vf & Vk).
+    pose proof (upsert_src_perm (s_name v) v (e_srcs p) (Hsf p Hp)) as Hu.
+    set (rest := filter (fun x => negb (String.eqb (s_name x) (s_name v))) (e_srcs p)) in *.
+    set (e := Entry (e_name p) (upsert_src (s_name v) v (e_srcs p))).
+    assert (validate (normalize e) = None <-> src_valid (is_wild dn) v = true) as Hval.
+    { rewrite validate_normalize. cbn [e e_name e_srcs]. rewrite (forallb_perm _ _ _ Hu). cbn [forallb].
+      rewrite En in *. split.
+      - intros (_ & _ & F & _). apply andb_true_iff in F. tauto.
+      - intros Sv. split; [exact Vn|]. split.
+        + intros E. rewrite E in Hu. apply Permutation_nil in Hu. discriminate.
+        + split.
+          * rewrite Sv. cbn [andb]. apply forallb_filter. exact Vf.
+          * eapply Permutation_NoDup; [symmetry; apply Permutation_map; exact Hu|]. cbn [map].
+            constructor; [|apply nodup_map_filter; exact Vk].
+            intros Hin. apply in_map_iff in Hin as (x & Ex & Hx). apply filter_In in Hx as [_ Hx].
+            apply negb_true_iff, String.eqb_neq in Hx. apply Hx. unfold skey in Ex. congruence. }
+    assert (ename_valid dn = true) as Vdn by (rewrite <- En; exact Vn).
+    destruct (ensure_cases st e) as [[Hv He]|(c & Hv & He)]; rewrite He; cbn [snd].
+    + split.
+      * intros Wf. exfalso. unfold wvalid in Wf. rewrite Vdn in Wf. apply Hval in Hv. rewrite Hv in Wf. discriminate.
+      * intros _.
+        assert (Permutation (e_srcs (normalize e)) (src_set_prec dn v :: rest)) as Hsrcs.
+        { rewrite normalize_srcs_perm. cbn [e e_name e_srcs]. rewrite Hu. cbn [map]. rewrite En. constructor.
+          rewrite (map_ext_in _ (fun x => x)); [rewrite map_id; reflexivity|].
+          intros x Hx. apply src_set_prec_id. rewrite <- En. apply Sp. apply filter_In in Hx. tauto. }
+        split; [apply store_ok_put; [exact Hst|apply entry_ok_normalize; exact Hv]|].
+        split.
+        { intros x Hx. apply put_in in Hx as [->|Hx]; [|apply Hsf; exact Hx].
+          eapply Permutation_NoDup; [symmetry; apply Permutation_map; exact Hsrcs|]. cbn [map].
+          constructor; [|apply nodup_map_filter; apply Hsf; exact Hp].
+          intros Hin. apply in_map_iff in Hin as (x & Ex & Hx). apply filter_In in Hx as [_ Hx].
+          apply negb_true_iff, String.eqb_neq in Hx. apply Hx. exact Ex. }
+        split.
+        { intros n Hn. apply enames_put in Hn. cbn [normalize e e_name] in Hn. rewrite En in Hn. exact Hn. }
+        rewrite (put_call _ st Hnd). cbn [normalize e e_name]. rewrite En.
+        (* the intentions of the new entry *)
+        assert (Permutation (to_ixns (normalize e)) (wixn dn v :: map (to_ixn p) rest)) as ->.
+        { unfold to_ixns.
+          rewrite (map_ext (to_ixn (normalize e)) (to_ixn (Entry dn []))) by (intros x; apply to_ixn_name; exact En).
+          rewrite Hsrcs. cbn [map]. apply perm_skip.
+          rewrite (map_ext (to_ixn p) (to_ixn (Entry dn []))) by (intros x; apply to_ixn_name; exact En).
+          reflexivity. }
+        (* the intentions that stay *)
+        assert (Permutation (filter (fun j => negb (over dn v j)) (call st))
+                  (filter (fun j => negb (name_eqb (i_dname j) dn)) (call st) ++ map (to_ixn p) rest)) as ->.
+        { erewrite filter_ext; [|intros j; apply over_split].
+          rewrite filter_or_perm.
+          - apply Permutation_app_head. unfold call. rewrite filter_flat_map.
+            rewrite (flat_map_single _ st p (nodup_of_map lname st Hnd) Hp).
+            + unfold to_ixns. rewrite filter_map_comm. cbn [to_ixn i_dname i_sname].
+              unfold rest. erewrite filter_ext; [reflexivity|]. intros x. cbn beta.
+              unfold name_eqb. rewrite El, String.eqb_refl. reflexivity.
+            + intros x Hx Hne. apply filter_none_in. intros j Hj. rewrite (to_ixns_dname _ _ Hj).
+              assert (name_eqb (e_name x) dn = false) as ->; [|reflexivity].
+              unfold name_eqb. apply String.eqb_neq. intros Ex. apply Hne.
+              apply (nodup_map_inj lname st); try assumption. unfold lname. congruence.
+          - intros x _ A B. apply andb_true_iff in B as [B _]. rewrite B in A. discriminate. }
+        rewrite <- app_assoc. apply Permutation_app_head.
+        rewrite <- Permutation_cons_append. reflexivity.
+    + split; [reflexivity|]. intros Wt. exfalso. unfold wvalid in Wt. apply andb_true_iff in Wt as [_ Wt].
+      apply Hval in Wt. congruence.
+  - (* first intention for this destination *)
+    set (e := Entry dn [v]).
+    assert (normalize e = Entry dn [src_set_prec dn v]) as Hne by reflexivity.
+    assert (validate (normalize e) = None <-> wvalid dn v = true) as Hval.
+    { rewrite validate_normalize. cbn [e e_name e_srcs forallb map]. unfold wvalid. rewrite andb_true_r. split.
+      - intros (A & _ & B & _). rewrite A, B. reflexivity.
+      - intros H. apply andb_true_iff in H as [A B]. repeat split; try assumption; [discriminate|].
+        repeat constructor. intros []. }
+    assert (forall j, In j (call st) -> name_eqb (i_dname j) dn = false) as Hnone.
+    { intros j Hj. apply in_call in Hj as (x & s & Hx & _ & ->). cbn [to_ixn i_dname].
+      unfold name_eqb. apply String.eqb_neq. apply (lookup_none st dn L x Hx). }
+    destruct (ensure_cases st e) as [[Hv He]|(c & Hv & He)]; rewrite He; cbn [snd].
+    + split; [intros Wf; apply Hval in Hv; congruence|]. intros _.
+      split; [apply store_ok_put; [exact Hst|apply entry_ok_normalize; exact Hv]|].
+      split.
+      { intros x Hx. apply put_in in Hx as [->|Hx]; [|apply Hsf; exact Hx].
+        rewrite Hne. cbn [e_srcs map]. repeat constructor. intros []. }
+      split.
+      { intros n Hn. apply enames_put in Hn. rewrite Hne in Hn. exact Hn. }
+      rewrite (put_call _ st Hnd). rewrite Hne. cbn [e_name].
+      rewrite (filter_all_in _ (call st)); [|intros j Hj; rewrite (Hnone j Hj); reflexivity].
+      rewrite (filter_all_in _ (call st)); [reflexivity|].
+      intros j Hj. unfold over. rewrite (Hnone j Hj). reflexivity.
+    + split; [reflexivity|]. intros Wt. apply Hval in Wt. congruence.
+Qed.
+
+(* ---------------------------------------------------------------- any order of the same upserts *)
+
+
+Definition wv (w : string * src) : bool := wvalid (fst w) (snd w).
+Definition wx (w : string * src) : ixn := wixn (fst w) (snd w).
+Definition keeps (ws : list (string * src)) (j : ixn) : bool :=
+  forallb (fun w => negb (over (fst w) (snd w) j)) ws.
+
+Lemma over_wx a b : over (fst a) (snd a) (wx b) = true <-> wkey a = wkey b.
+Proof.
+  unfold over, wx, wixn, wkey, name_eqb. cbn [to_ixn i_dname i_sname src_set_prec s_name e_name].
+  rewrite andb_true_iff, !String.eqb_eq. split; [intros [-> ->]; reflexivity|intros [= -> ->]; auto].
+Qed.
+
+Lemma filter_filter {A} (P Q : A -> bool) l : filter P (filter Q l) = filter (fun x => Q x && P x)%bool l.
+Proof.
+  induction l as [|a l IH]; cbn [filter]; [reflexivity|].
+  destruct (Q a); cbn [filter andb]; [destruct (P a)|]; rewrite IH; reflexivity.
+Qed.
+
+Lemma upsert_all_call ws : forall st,
+  store_ok st -> shadow_free st -> coherent (enames st ++ map fst ws) ->
+  (forall w, In w ws -> s_peer (snd w) = "") -> NoDup (map wkey ws) ->
+  let st' := upsert_all st ws in
+  store_ok st' /\ incl (enames st') (enames st ++ map fst ws) /\
+  Permutation (call st') (filter (keeps (filter wv ws)) (call st) ++ map wx (filter wv ws)).
+Proof.
+  induction ws as [|w ws IH]; intros st Hst Hsf C Hpe Hk; cbn [upsert_all fold_left].
+  - split; [exact Hst|]. split; [intros n Hn; apply in_or_app; left; exact Hn|].
+    cbn [filter map]. rewrite app_nil_r. unfold keeps. cbn [forallb]. rewrite filter_true_id. reflexivity.
+  - fold (upsert_all (snd (upsert st (fst w) (snd w))) ws).
+    inversion Hk as [|? ? Hnotin Hk']; subst.
+    assert (coherent (enames st ++ [fst w])) as Cw.
+    { eapply coherent_incl; [|exact C]. intros n Hn. apply in_app_or in Hn as [Hn|[<-|[]]]; apply in_or_app; [left; exact Hn|right; left; reflexivity]. }
+    destruct (upsert_step st (fst w) (snd w) Hst Hsf Cw (Hpe w (or_introl eq_refl))) as [Hbad Hgood].
+    cbn [filter]. fold (wv w). destruct (wv w) eqn:V.
+    + destruct (Hgood V) as (Hst1 & Hsf1 & Hin1 & Hc1).
+      set (st1 := snd (upsert st (fst w) (snd w))) in *.
+      assert (coherent (enames st1 ++ map fst ws)) as C1.
+      { eapply coherent_incl; [|exact C]. intros n Hn. apply in_app_or in Hn as [Hn|Hn].
+        - apply Hin1 in Hn. apply in_app_or in Hn as [Hn|[<-|[]]]; apply in_or_app; [left; exact Hn|right; left; reflexivity].
+        - apply in_or_app. right. right. exact Hn. }
+      destruct (IH st1 Hst1 Hsf1 C1 (fun x Hx => Hpe x (or_intror Hx)) Hk') as (Hst2 & Hin2 & Hc2).
+      split; [exact Hst2|]. split.
+      { intros n Hn. apply Hin2 in Hn. apply in_app_or in Hn as [Hn|Hn].
+        - apply Hin1 in Hn. apply in_app_or in Hn as [Hn|[<-|[]]]; apply in_or_app; [left; exact Hn|right; left; reflexivity].
+        - apply in_or_app. right. right. exact Hn. }
+      rewrite Hc2. rewrite (perm_filter _ _ _ Hc1). rewrite filter_app, filter_filter. cbn [map].
+      assert (filter (keeps (filter wv ws)) [wixn (fst w) (snd w)] = [wx w]) as ->.
+      { cbn [filter]. fold (wx w). assert (keeps (filter wv ws) (wx w) = true) as ->; [|reflexivity].
+        unfold keeps. apply forallb_forall. intros a Ha. apply filter_In in Ha as [Ha _].
+        apply negb_true_iff. destruct (over (fst a) (snd a) (wx w)) eqn:O; [|reflexivity].
+        apply over_wx in O. exfalso. apply Hnotin. rewrite <- O. apply in_map. exact Ha. }
+      rewrite <- app_assoc. cbn [app]. reflexivity.
+    + rewrite (Hbad V).
+      assert (coherent (enames st ++ map fst ws)) as C1.
+      { eapply coherent_incl; [|exact C]. intros n Hn. apply in_app_or in Hn as [Hn|Hn]; apply in_or_app; [left|right; right]; exact Hn. }
+      destruct (IH st Hst Hsf C1 (fun x Hx => Hpe x (or_intror Hx)) Hk') as (Hst2 & Hin2 & Hc2).
+      split; [exact Hst2|]. split; [|exact Hc2].
+      intros n Hn. apply Hin2 in Hn. apply in_app_or in Hn as [Hn|Hn]; apply in_or_app; [left|right; right]; exact Hn.
+Qed.
+
+Lemma enames_of_call st1 st2 :
+  store_ok st2 -> Permutation (call st1) (call st2) -> incl (enames st2) (enames st1).
+Proof.
+  intros [_ Hok] Hp n Hn. unfold enames in Hn. apply in_map_iff in Hn as (e & <- & He).
+  destruct (Hok e He) as [Hv _]. apply validate_none in Hv as (_ & Hne & _).
+  destruct (e_srcs e) as [|s l] eqn:E; [congruence|].
+  assert (In (to_ixn e s) (call st2)) as Hi by (apply in_call; exists e, s; rewrite E; cbn; auto).
+  apply (Permutation_in _ (Permutation_sym Hp)) in Hi. apply in_call in Hi as (e' & s' & He' & _ & Ei).
+  apply (f_equal i_dname) in Ei. cbn [to_ixn i_dname] in Ei. rewrite Ei. apply in_map. exact He'.
+Qed.
+
+Theorem upsert_order_independent st1 st2 ws1 ws2 :
+  store_ok st1 -> store_ok st2 -> shadow_free st1 -> shadow_free st2 ->
+  Permutation (call st1) (call st2) -> Permutation ws1 ws2 ->
+  NoDup (map wkey ws1) -> (forall w, In w ws1 -> s_peer (snd w) = "") ->
+  coherent (enames st1 ++ map fst ws1) ->
+  let a := upsert_all st1 ws1 in
+  let b := upsert_all st2 ws2 in
+  store_ok a /\ store_ok b /\ Permutation (call a) (call b) /\
+  incl (enames a) (enames st1 ++ map fst ws1) /\ incl (enames b) (enames st1 ++ map fst ws1).
+Proof.
+  intros H1 H2 S1 S2 Hc Hw Hk Hpe C.
+  assert (incl (enames st2 ++ map fst ws2) (enames st1 ++ map fst ws1)) as Hi.
+  { intros n Hn. apply in_app_or in Hn as [Hn|Hn]; apply in_or_app.
+    - left. apply (enames_of_call st1 st2 H2 Hc). exact Hn.
+    - right. eapply Permutation_in; [apply Permutation_map; symmetry; exact Hw|exact Hn]. }
+  destruct (upsert_all_call ws1 st1 H1 S1 C Hpe Hk) as (A1 & A2 & A3).
+  destruct (upsert_all_call ws2 st2 H2 S2 (coherent_incl _ _ Hi C)) as (B1 & B2 & B3).
+  { intros w Hin. apply Hpe. eapply Permutation_in; [symmetry; exact Hw|exact Hin]. }
+  { eapply Permutation_NoDup; [apply Permutation_map; exact Hw|exact Hk]. }
+  cbn zeta. split; [exact A1|]. split; [exact B1|]. split.
+  - rewrite A3, B3. pose proof (perm_filter wv _ _ Hw) as Hv. apply Permutation_app.
+    + erewrite filter_ext; [apply perm_filter; exact Hc|].
+      intros j. unfold keeps. apply forallb_perm. exact Hv.
+    + apply Permutation_map. exact Hv.
+  - split; [exact A2|]. intros n Hn. apply Hi. apply B2. exact Hn.
+Qed.
+
+(* ---------------------------------------------------------------- any order of whole-entry writes *)
+
+
+Definition ev (e : entry) : bool := match validate (normalize e) with None => true | Some _ => false end.
+Definition ekeeps (es : list entry) (j : ixn) : bool :=
+  forallb (fun e => negb (name_eqb (i_dname j) (e_name e))) es.
+
+Lemma ensure_all_call es : forall st,
+  store_ok st -> NoDup (map lname es) ->
+  let st' := ensure_all st es in
+  store_ok st' /\ incl (enames st') (enames st ++ map e_name es) /\
+  Permutation (call st') (filter (ekeeps (filter ev es)) (call st)
+                          ++ flat_map (fun e => to_ixns (normalize e)) (filter ev es)).
+Proof.
+  induction es as [|e es IH]; intros st Hst Hk; cbn [ensure_all fold_left].
+  - split; [exact Hst|]. split; [intros n Hn; apply in_or_app; left; exact Hn|].
+    cbn [filter flat_map]. rewrite app_nil_r. unfold ekeeps. cbn [forallb]. rewrite filter_true_id. reflexivity.
+  - fold (ensure_all (snd (ensure st e)) es). inversion Hk as [|? ? Hnotin Hk']; subst.
+    cbn [filter].
+    destruct (ensure_cases st e) as [[Hv He]|(c & Hv & He)]; rewrite He;
+      (assert (ev e = match validate (normalize e) with None => true | Some _ => false end) as -> by reflexivity);
+      rewrite Hv; cbn [snd].
+    + assert (store_ok (put (normalize e) st)) as Hst1 by (apply store_ok_put; [exact Hst|apply entry_ok_normalize; exact Hv]).
+      destruct (IH _ Hst1 Hk') as (Hst2 & Hin2 & Hc2).
+      split; [exact Hst2|]. split.
+      { intros n Hn. apply Hin2 in Hn. apply in_app_or in Hn as [Hn|Hn].
+        - apply enames_put in Hn. apply in_app_or in Hn as [Hn|[<-|[]]]; apply in_or_app; [left; exact Hn|right; left; reflexivity].
+        - apply in_or_app. right. right. exact Hn. }
+      rewrite Hc2. destruct Hst as [Hnd _]. rewrite (perm_filter _ _ _ (put_call (normalize e) st Hnd)).
+      rewrite filter_app, filter_filter. cbn [flat_map normalize e_name].
+      assert (filter (ekeeps (filter ev es)) (to_ixns (normalize e)) = to_ixns (normalize e)) as ->.
+      { apply filter_all_in. intros j Hj.
+        unfold ekeeps. apply forallb_forall. intros a Ha. apply filter_In in Ha as [Ha _].
+        rewrite (to_ixns_dname _ _ Hj). cbn [normalize e_name].
+        apply negb_true_iff. unfold name_eqb. apply String.eqb_neq. intros E. apply Hnotin.
+        unfold lname at 1. rewrite E. apply (in_map lname). exact Ha. }
+      rewrite <- app_assoc. reflexivity.
+    + destruct (IH _ Hst Hk') as (Hst2 & Hin2 & Hc2).
+      split; [exact Hst2|]. split; [|exact Hc2].
+      intros n Hn. apply Hin2 in Hn. apply in_app_or in Hn as [Hn|Hn]; apply in_or_app; [left|right; right]; exact Hn.
+Qed.
+
+Theorem entries_order_independent st1 st2 es1 es2 :
+  store_ok st1 -> store_ok st2 -> Permutation (call st1) (call st2) ->
+  Permutation es1 es2 -> NoDup (map lname es1) ->
+  let a := ensure_all st1 es1 in
+  let b := ensure_all st2 es2 in
+  store_ok a /\ store_ok b /\ Permutation (call a) (call b) /\
+  incl (enames a) (enames st1 ++ map e_name es1) /\ incl (enames b) (enames st1 ++ map e_name es1).
+Proof.
+  intros H1 H2 Hc He Hk.
+  destruct (ensure_all_call es1 st1 H1 Hk) as (A1 & A2 & A3).
+  destruct (ensure_all_call es2 st2 H2) as (B1 & B2 & B3).
+  { eapply Permutation_NoDup; [apply Permutation_map; exact He|exact Hk]. }
+  cbn zeta. split; [exact A1|]. split; [exact B1|]. split.
+  - rewrite A3, B3. pose proof (perm_filter ev _ _ He) as Hv. apply Permutation_app.
+    + erewrite filter_ext; [apply perm_filter; exact Hc|].
+      intros j. unfold ekeeps. apply forallb_perm. exact Hv.
+    + apply Permutation_flat_map. exact Hv.
+  - split; [exact A2|]. intros n Hn. apply B2 in Hn. apply in_app_or in Hn as [Hn|Hn]; apply in_or_app.
+    + left. apply (enames_of_call st1 st2 H2 Hc). exact Hn.
+    + right. eapply Permutation_in; [apply Permutation_map; symmetry; exact He|exact Hn].
 Qed.
